@@ -469,4 +469,58 @@ class SharedRunModel(es.RunModelStream):
     e2e_cls = SharedSets
 
 
-STREAMS = [ModesStream(), RunModel(), SharedRunModel()]
+def rec_key(r):
+    return (r['q'], r['r'], r['ori'], r['qs'], r['qe'], r['rs'], r['re'], r['conf'], r['hit'], r['qlen'], r['rlen'], r['alignment'])
+
+
+class BestMode(es.E2EStream):
+    """mode `best`: every record must be the query's first-pass record, its second-pass record, or the joined record the other modes
+    report for it ("a joined record exists only for a first- and a second-pass record ...").  Open finding F12: when the second-pass row
+    beats the first-pass row, `best` mode hands that row to the join twice and reports the self-join (only its first segment)."""
+    name = 'e2e_best_mode'
+    quick_n, thorough_n = 3, 8
+
+    def gen(self, rng, tier):
+        cases = super().gen(rng, tier)
+        if tier != 'quick':
+            cases.append(dict(ds_seed=538443628, nq=40, extra=[]))      # the recorded F12 witness (query 246)
+        return cases
+
+    def analyse(self, out):
+        files = {(m, fk): f.get('rows', []) for m, mo in out['modes'].items() for fk, f in mo['files'].items()}
+        first = {r['q']: r for r in files.get(('separate', 'main'), [])}
+        second = {r['q']: r for r in files.get(('separate', '_1'), [])}
+        joined = {r['q']: r for r in files.get(('joined', 'main'), [])}
+        res = []
+        for r in files.get(('best', 'main'), []):
+            q = r['q']
+            cands = [x for x in (first.get(q), second.get(q), joined.get(q)) if x is not None]
+            ok = any(rec_key(r) == rec_key(x) for x in cands)
+            b = second.get(q); a = first.get(q)
+            selfjoin = (not ok) and b is not None and (a is None or float(b['conf']) > float(a['conf'])) and \
+                set(map(tuple, r['pairs'])) <= set(map(tuple, b['pairs'])) and r['r'] == b['r'] and r['ori'] == b['ori']
+            res.append(dict(q=q, ok=ok, selfjoin=selfjoin, rec=r, first=a, second=b, joined=joined.get(q)))
+        return res
+
+    def oracle(self, case, out):
+        errs = es.run_failures(out)
+        for e in self.analyse(out):
+            if not e['ok']:
+                errs.append("mode 'best': the record of query %d (reference %d, %s, confidence %s, %d pairs) is neither its first-pass record, nor its "
+                            "second-pass record, nor the joined record of mode 'joined'%s" % (
+                                e['q'], e['rec']['r'], e['rec']['ori'], e['rec']['conf'], len(e['rec']['pairs']),
+                                ' [SELF-JOIN of the second-pass record (confidence %s, %d pairs), which beats the first-pass record]' % (
+                                    e['second']['conf'], len(e['second']['pairs'])) if e['selfjoin'] else ''))
+        return errs[:4]
+
+    def finding(self, case, out, viol):
+        return 'F12' if '[SELF-JOIN of the second-pass record' in viol else None
+
+    def classify(self, case, out):
+        k = super().classify(case, out)
+        for e in self.analyse(out):
+            k.append('best record = ' + ('first/second/joined record' if e['ok'] else 'SELF-JOIN (F12)' if e['selfjoin'] else 'SOMETHING ELSE'))
+        return k
+
+
+STREAMS = [ModesStream(), RunModel(), SharedRunModel(), BestMode()]
